@@ -1,6 +1,7 @@
 package main
 
 import (
+	"math/big"
 	"fmt"
 	"go/constant"
 	"go/token"
@@ -51,7 +52,18 @@ func (g *Gen) constVal(c *ssa.Const) Val {
 	case constant.String:
 		return Val{T: g.strConst(constant.StringVal(c.Value)), S: "Int", G: t}
 	case constant.Float:
-		return Val{T: "0.0", S: "Real", G: t}
+		// exact rational value of the constant (floats are modelled as reals)
+		num, den := constant.Num(c.Value), constant.Denom(c.Value)
+		if num.Kind() == constant.Int && den.Kind() == constant.Int {
+			n, d := realLit(num.ExactString()), realLit(den.ExactString())
+			if d == "1.0" {
+				return Val{T: n, S: "Real", G: t}
+			}
+			return Val{T: sx("/", n, d), S: "Real", G: t}
+		}
+		r := g.freshVal("fconst", t)
+		g.unsup = appendUniq(g.unsup, "floating point constant abstracted")
+		return r
 	}
 	g.bail("constant kind %v", c.Value.Kind())
 	return Val{}
@@ -285,22 +297,44 @@ func (g *Gen) run() {
 			ord := g.loopOf[b]
 			spec := g.loopSpec(ord)
 			// 1. inv-init per entry edge
+			// Every obligation is decided against the whole script, in which each
+			// assumption is guarded by the path condition it was made under. The
+			// invariant assumed below must therefore sit under a guard that is false
+			// whenever an entry check fails (assert, then assume).
+			var initOK []string
 			for _, e := range inEdges[b] {
 				g.cur, g.st = e.reach, e.st
 				g.curPos = b.Instrs[0].Pos()
 				ienv := g.loopEnv(b, e.from, e.st)
+				var conds []string
 				for k, c := range spec.Inv {
 					if c.Tier == "thorough" && g.tier != "thorough" {
 						continue
 					}
-					g.checkNamed("inv-init", fmt.Sprintf("loop%d.%s", ord, clauseName(c, k)), ienv.boolOf(c.E), "loop invariant holds on entry: "+c.Src)
+					cond := ienv.boolOf(c.E)
+					conds = append(conds, cond)
+					g.checkNamed("inv-init", fmt.Sprintf("loop%d.%s", ord, clauseName(c, k)), cond, "loop invariant holds on entry: "+c.Src)
 				}
 				from := e.from
 				for _, a := range g.autoInv(b, func(p *ssa.Phi) Val { return g.val(p.Edges[predIndex(b, from)]) }) {
+					conds = append(conds, a)
 					g.checkNamed("inv-init", fmt.Sprintf("loop%d.auto", ord), a, "range index within bounds on entry")
+				}
+				if len(conds) > 0 {
+					initOK = append(initOK, implies(e.reach, and(conds...)))
 				}
 			}
 			g.cur, g.st = cur, st
+			if len(initOK) > 0 {
+				// a fresh flag that implies the entry conditions (one direction only, so
+				// that quantified invariants occur in the script with positive polarity
+				// alone): where an entry check fails the flag, and with it the head's
+				// path condition, is false
+				ok := g.declConst(g.fresh("initok"), "Bool")
+				g.assumeRaw(implies(ok, and(initOK...)))
+				cur = g.define("r", "Bool", and(cur, ok))
+				g.cur = cur
+			}
 			// 2. havoc
 			ws, wsAll := g.loopWriteSet(b)
 			if wsAll {
@@ -471,11 +505,18 @@ func clauseName(c *Clause, k int) string {
 }
 
 func (g *Gen) checkNamed(kind, what, cond, desc string) {
+	if kind == "site" {
+		// followed by more code on the same path: assert, then assume
+		g.check(kind, what, cond, desc)
+		return
+	}
+	// post / inv-keep end their path; inv-init refines the loop head's path
+	// condition itself (see the loop cut)
 	save := g.cur
 	g.noRefine = true
 	g.check(kind, what, cond, desc)
 	g.noRefine = false
-	g.cur = save // spec obligations do not refine the path
+	g.cur = save
 }
 
 // autoFrame: at a loop head, objects that existed at function entry are
@@ -569,6 +610,8 @@ func (g *Gen) loopWriteSet(h *ssa.BasicBlock) (map[string]bool, bool) {
 				if x.Op == token.ARROW {
 					ws["ChanR"] = true
 				}
+			case *ssa.Select:
+				ws["ChanR"] = true
 			case *ssa.Next:
 				if r, ok := x.Iter.(*ssa.Range); ok {
 					if mt, ok := r.X.Type().Underlying().(*types.Map); ok {
@@ -775,7 +818,7 @@ func (g *Gen) instr(in ssa.Instruction) {
 		g.cur = "false"
 	case *ssa.If, *ssa.Jump:
 	case *ssa.Select:
-		g.bail("select statement")
+		g.selectStmt(x)
 	default:
 		g.bail("unsupported instruction %T", in)
 	}
@@ -948,6 +991,23 @@ func (g *Gen) binop(x *ssa.BinOp) Val {
 			return res(or(a.T, b.T))
 		}
 	}
+	if bt.Info()&types.IsFloat != 0 {
+		// floats as reals: multiplication/division by a constant power of two is
+		// exact in binary floating point (no overflow/underflow at the magnitudes
+		// of converted machine integers); everything else is abstracted
+		if c, ok := x.Y.(*ssa.Const); ok && (x.Op == token.QUO || x.Op == token.MUL) {
+			if n, ok := constant.Int64Val(constant.ToInt(c.Value)); ok && n > 0 && n&(n-1) == 0 {
+				op := "/"
+				if x.Op == token.MUL {
+					op = "*"
+				}
+				g.assumed = appendUniq(g.assumed, "float64 values are modelled as real numbers (exact for the integer/2^k values that occur); math.Ceil/Floor as the real ceiling/floor")
+				return res(sx(op, a.T, b.T))
+			}
+		}
+		g.unsup = appendUniq(g.unsup, fmt.Sprintf("floating point %s abstracted to an arbitrary value", x.Op))
+		return g.freshVal("fop", t)
+	}
 	if bt.Info()&types.IsInteger == 0 {
 		g.bail("arithmetic on %s", bt)
 	}
@@ -1001,6 +1061,45 @@ func (g *Gen) binop(x *ssa.BinOp) Val {
 				}
 			}
 		}
+	}
+	// variable shift counts: a << n = a * 2^n (0 once n reaches the width), a >> n
+	// = a div 2^n for non-negative a; 2^n is a 64-way case split on n
+	if x.Op == token.SHL || x.Op == token.SHR {
+		if cb, ok := x.Y.Type().Underlying().(*types.Basic); ok {
+			if _, signed := intBits(cb); signed {
+				g.check("panic", "shift", sx("<=", "0", b.T), "negative shift amount")
+			}
+		}
+		p2 := sx(g.pow2cFn(), b.T)
+		bits, signed := intBits(rt)
+		if x.Op == token.SHL {
+			return res(sx("ite", sx("<", b.T, fmt.Sprint(bits)), wrap(sx("*", a.T, p2), rt, false), "0"))
+		}
+		if !signed {
+			return res(sx("ite", sx("<", b.T, fmt.Sprint(bits)), sx("div", a.T, p2), "0"))
+		}
+	}
+	// 8-bit operands: bitwise as a sum over the eight bit positions
+	if bits, signed := intBits(rt); bits == 8 && !signed && (x.Op == token.AND || x.Op == token.OR || x.Op == token.XOR || x.Op == token.AND_NOT) {
+		var terms []string
+		for i := 0; i < 8; i++ {
+			w := fmt.Sprint(1 << uint(i))
+			ba := sx("=", sx("mod", sx("div", a.T, w), "2"), "1")
+			bb := sx("=", sx("mod", sx("div", b.T, w), "2"), "1")
+			var c string
+			switch x.Op {
+			case token.AND:
+				c = and(ba, bb)
+			case token.OR:
+				c = or(ba, bb)
+			case token.XOR:
+				c = sx("xor", ba, bb)
+			case token.AND_NOT:
+				c = and(ba, not(bb))
+			}
+			terms = append(terms, sx("ite", c, w, "0"))
+		}
+		return res(g.define("bits8", "Int", sx("+", terms...)))
 	}
 	// unmodelled bit operation: arbitrary value of the result type
 	g.unsup = appendUniq(g.unsup, fmt.Sprintf("bit operation %s abstracted to an arbitrary %s", x.Op, t))
@@ -1342,6 +1441,19 @@ func (g *Gen) convert(x *ssa.Convert) {
 		f := g.declFun("str2bytes", []string{"Int"}, "(Array Int Int)")
 		g.setHeap(g.st, hn, hs, sx("store", g.heap(g.st, hn, hs), r, sx(f, v.T)))
 		g.set(x, Val{T: sx("mk-slice", r, "0", ln, ln), S: "Slice", G: x.Type()})
+	case fok && tok && fb.Info()&types.IsInteger != 0 && tb.Kind() == types.Float64:
+		// exact below 2^53; arbitrary above (rounding not modelled)
+		r := g.freshVal("fconv", x.Type())
+		g.assume(implies(and(sx("<=", "(- 9007199254740992)", v.T), sx("<=", v.T, "9007199254740992")), sx("=", r.T, sx("to_real", v.T))))
+		g.vals[x] = r
+	case fok && tok && fb.Kind() == types.Float64 && tb.Info()&types.IsInteger != 0:
+		// truncation toward zero when the result fits; otherwise implementation-defined
+		r := g.freshVal("fconv", x.Type())
+		g.assume(g.typeInv(r, g.st))
+		tr := g.define("ftrunc", "Int", fmt.Sprintf("(ite (>= %s 0.0) (to_int %s) (- (to_int (- %s))))", v.T, v.T, v.T))
+		lo, hi := intRange(tb)
+		g.assume(implies(and(sx("<=", lo, tr), sx("<=", tr, hi)), sx("=", r.T, tr)))
+		g.vals[x] = r
 	case fok && tok && (fb.Info()&types.IsFloat != 0 || tb.Info()&types.IsFloat != 0):
 		r := g.freshVal("fconv", x.Type())
 		g.assume(g.typeInv(r, g.st))
@@ -1611,4 +1723,74 @@ func srcName(v ssa.Value) string {
 		return "make"
 	}
 	return "_"
+}
+
+func realLit(n string) string {
+	if strings.HasPrefix(n, "-") {
+		return "(- " + n[1:] + ".0)"
+	}
+	return n + ".0"
+}
+
+// selectStmt: a select whose cases are all receives. The chosen case is
+// arbitrary (-1, the default, only for a non-blocking select); a receive case
+// can be chosen only if a value is left on its channel (it then yields the
+// next value sent, as a plain receive does) or the channel has been closed
+// (zero value, ok false). This over-approximates every scheduling of the
+// senders that have run (join rule).
+func (g *Gen) selectStmt(x *ssa.Select) {
+	n := len(x.States)
+	idx := g.declConst(g.fresh("select.idx"), "Int")
+	lo := "0"
+	if !x.Blocking {
+		lo = "(- 1)"
+	}
+	g.assume(and(sx("<=", lo, idx), sx("<", idx, fmt.Sprint(n))))
+	tup := []Val{{T: idx, S: "Int", G: types.Typ[types.Int]}, {}}
+	var oks []string
+	for i, st := range x.States {
+		if st.Dir != types.RecvOnly {
+			g.bail("select with a send case")
+		}
+		sel := sx("=", idx, fmt.Sprint(i))
+		ch := g.val(st.Chan)
+		et := st.Chan.Type().Underlying().(*types.Chan).Elem()
+		rh := g.heap(g.st, "ChanR", "(Array Int Int)")
+		cur := g.define("rcur", "Int", sx("select", rh, ch.T))
+		sent := sx("select", g.heap(g.st, "ChanN", "(Array Int Int)"), ch.T)
+		avail := g.define("ravail", "Bool", and(not(sx("=", ch.T, "0")), sx("<", cur, sent)))
+		closed := and(not(sx("=", ch.T, "0")), sx("select", g.heap(g.st, "Closed", "(Array Int Bool)"), ch.T))
+		g.assume(implies(sel, or(avail, closed)))
+		v := g.freshVal("recv", et)
+		if es := g.sortOf(et); es != "" {
+			boxed := sx("select", sx("select", g.heap(g.st, "ChanV", "(Array Int (Array Int Int))"), ch.T), cur)
+			g.assume(implies(and(sel, avail), sx("=", v.T, g.unboxAny(boxed, es))))
+			g.assume(implies(not(and(sel, avail)), sx("=", v.T, g.zero(et))))
+		}
+		g.assume(g.typeInv(v, g.st))
+		taken := g.define("rtaken", "Bool", and(sel, avail))
+		g.setHeap(g.st, "ChanR", "(Array Int Int)", sx("store", rh, ch.T, sx("ite", taken, sx("+", cur, "1"), cur)))
+		oks = append(oks, taken)
+		tup = append(tup, v)
+	}
+	okT := "false"
+	if len(oks) > 0 {
+		okT = or(oks...)
+	}
+	tup[1] = Val{T: okT, S: "Bool", G: types.Typ[types.Bool]}
+	g.assumed = appendUniq(g.assumed, "select: the chosen case is arbitrary among the receive cases whose channel has a value left or is closed (and the default, if any)")
+	g.vals[x] = Val{Tup: tup}
+}
+
+// pow2cFn: 2^n for 0 <= n < 64 as a case split (0 otherwise)
+func (g *Gen) pow2cFn() string {
+	if !g.declared["pow2c"] {
+		g.declared["pow2c"] = true
+		t := "0"
+		for i := 63; i >= 0; i-- {
+			t = fmt.Sprintf("(ite (= n %d) %s %s)", i, new(big.Int).Lsh(big.NewInt(1), uint(i)).String(), t)
+		}
+		g.emit("(define-fun pow2c ((n Int)) Int " + t + ")")
+	}
+	return "pow2c"
 }
